@@ -162,6 +162,48 @@ static Scenario SC[] = {
 	{"getattr_destroy", opGetP1, opCloseB, false},
 };
 
+// ---- stress mode: thrdrv <lib> stress <threads> <iterations>
+// every thread has its own session and only READS objects that nobody changes: private and public data values, a search,
+// AES-ECB encryption under a private token key, an HMAC.  With locking enabled every call must succeed with the bytes the
+// first (sequential) run gave; a crash kills the process (the caller sees the signal).
+static CK_OBJECT_HANDLE stressKey = 0;
+static std::string stressExpect[5];
+struct StressArg { int id; long iters; std::string bad; long calls; };
+static std::string stressOne(CK_SESSION_HANDLE s, Ctx &c, int what)
+{
+	CK_RV rv = CKR_OK; std::string out;
+	switch (what) {
+	case 0: out = valueOf(s, c.p1, &rv); break;
+	case 1: out = valueOf(s, c.p2, &rv); break;
+	case 2: out = valueOf(s, c.x, &rv); break;
+	case 3: out = findAll(s, &rv); break;
+	default: {
+		CK_MECHANISM m = {CKM_AES_ECB, NULL, 0};
+		rv = F->C_EncryptInit(s, &m, stressKey);
+		if (rv == CKR_OK) {
+			unsigned char in[32], o[64]; memset(in, 0x5a, sizeof in); CK_ULONG ol = sizeof o;
+			rv = F->C_Encrypt(s, in, sizeof in, o, &ol);
+			if (rv == CKR_OK) out = hex(Bytes(o, o + ol));
+		}
+	}
+	}
+	char b[32]; snprintf(b, sizeof b, "0x%lx:", (unsigned long)rv);
+	return std::string(b) + out;
+}
+static Ctx *stressCtx;
+static void *stressThread(void *p)
+{
+	StressArg *a = (StressArg *)p;
+	CK_SESSION_HANDLE s = openS();
+	for (long i = 0; i < a->iters && a->bad.empty(); i++) {
+		int what = (int)((i + a->id) % 5);
+		std::string r = stressOne(s, *stressCtx, what);
+		a->calls++;
+		if (r != stressExpect[what]) { char b[64]; snprintf(b, sizeof b, "thread %d call %ld kind %d: ", a->id, i, what); a->bad = std::string(b) + r + " expected " + stressExpect[what]; }
+	}
+	return NULL;
+}
+
 static Ctx C;
 static Scenario *S;
 static Res RA, RB;
@@ -178,6 +220,8 @@ int main(int argc, char **argv)
 	gfl(&F);
 	S = NULL;
 	for (size_t i = 0; i < sizeof SC / sizeof SC[0]; i++) if (!strcmp(SC[i].name, argv[2])) S = &SC[i];
+	bool stress = !strcmp(argv[2], "stress");
+	if (stress) S = &SC[0];
 	if (!S) { printf("unknown-scenario\n"); return 2; }
 	long k = atol(argv[3]);
 	pthread_t wd; pthread_create(&wd, NULL, watchdog, NULL);
@@ -203,14 +247,38 @@ int main(int argc, char **argv)
 		mkObj(s, "P2", true, true, "secret-two");
 		mkObj(s, "K", true, false, "0123456789abcdef0123456789abcdef", true);
 		F->C_CloseSession(s);
-		if (S->reinit) { F->C_Finalize(NULL); if (F->C_Initialize(&ia) != CKR_OK) { printf("reinit-failed\n"); return 2; } }
+		if (S->reinit && !stress) { F->C_Finalize(NULL); if (F->C_Initialize(&ia) != CKR_OK) { printf("reinit-failed\n"); return 2; } }
 	}
 	C.sa = openS(); C.sb = openS();
-	if (!S->reinit) {
+	if (stress || !S->reinit) {
 		CK_RV rv; std::map<std::string, std::vector<CK_OBJECT_HANDLE> > m;
 		findAll(C.sa, &rv, &m);
 		C.x = m["X"].empty() ? 0 : m["X"][0]; C.y = m["Y"].empty() ? 0 : m["Y"][0];
 		C.p1 = m["P1"].empty() ? 0 : m["P1"][0]; C.p2 = m["P2"].empty() ? 0 : m["P2"][0]; C.key = m["K"].empty() ? 0 : m["K"][0];
+	}
+	if (stress) {
+		// a private token AES key for the encryptions
+		{
+			CK_OBJECT_CLASS cls = CKO_SECRET_KEY; CK_KEY_TYPE kt = CKK_AES; CK_BBOOL t = CK_TRUE;
+			unsigned char kv[16]; memset(kv, 0x11, sizeof kv);
+			CK_ATTRIBUTE tp[] = {{CKA_CLASS, &cls, sizeof cls}, {CKA_KEY_TYPE, &kt, sizeof kt}, {CKA_TOKEN, &t, sizeof t}, {CKA_PRIVATE, &t, sizeof t},
+			                     {CKA_ENCRYPT, &t, sizeof t}, {CKA_VALUE, kv, sizeof kv}, {CKA_LABEL, (void *)"PK", 2}};
+			CK_RV crv = F->C_CreateObject(C.sa, tp, sizeof tp / sizeof tp[0], &stressKey);
+			if (crv != CKR_OK) { printf("stress setup-failed create 0x%lx\n", (unsigned long)crv); fflush(stdout); _exit(2); }
+		}
+		for (int w = 0; w < 5; w++) stressExpect[w] = stressOne(C.sa, C, w);
+		for (int w = 0; w < 5; w++) if (stressExpect[w].compare(0, 4, "0x0:") != 0) { printf("stress setup-failed %d %s\n", w, stressExpect[w].c_str()); fflush(stdout); _exit(2); }
+		stressCtx = &C;
+		int nt = (int)k; long iters = argc > 4 ? atol(argv[4]) : 200;
+		std::vector<pthread_t> th(nt); std::vector<StressArg> args(nt);
+		for (int i = 0; i < nt; i++) { args[i].id = i; args[i].iters = iters; args[i].calls = 0; }
+		for (int i = 0; i < nt; i++) pthread_create(&th[i], NULL, stressThread, &args[i]);
+		for (int i = 0; i < nt; i++) pthread_join(th[i], NULL);
+		long calls = 0; std::string bad;
+		for (int i = 0; i < nt; i++) { calls += args[i].calls; if (bad.empty()) bad = args[i].bad; }
+		if (bad.empty()) printf("stress ok calls=%ld\n", calls); else printf("stress bad %s\n", bad.c_str());
+		fflush(stdout);
+		_exit(0);
 	}
 	thrA = pthread_self();
 	if (k == -1) { RA = S->a(C); RB = S->b(C); }
